@@ -90,12 +90,16 @@ def roundtrip_source(src):
     return ('minify(all off) changed the tree: %s; out=%r' % (d, out[:200])) if d else None
 
 
-def shapes_of(src):
+def shapes_of(src, why=None):
     s = []
     try:
         tree = ast.parse(src)
     except Exception:
         return s
+    if why and ('raised ValueError' in why):
+        # the printer refuses (F37, a known finding of C08 that this check meets too): only this refusal, on this shape of input
+        from props import c08
+        s += c08.shapes_of(src, 'ValueError')
     for n in ast.walk(tree):
         if isinstance(n, (ast.With, ast.AsyncWith)) and len(n.items) == 1 and n.items[0].optional_vars is None \
                 and isinstance(n.items[0].context_expr, ast.Tuple):
@@ -349,7 +353,7 @@ def correspond_and_check(ctx, items, stage):
             why = roundtrip_tree(tree)
             ctx.count()
             if why and why != 'recursion':
-                ctx.add_violation({'input': {'source': src}, 'what': why, 'found_by': stage, 'oracle': 'roundtrip', 'shapes': shapes_of(src)})
+                ctx.add_violation({'input': {'source': src}, 'what': why, 'found_by': stage, 'oracle': 'roundtrip', 'shapes': shapes_of(src, why)})
             continue
         except RecursionError:
             ctx.bump('out_of_model', 'recursion')
@@ -385,12 +389,12 @@ def correspond_and_check(ctx, items, stage):
             ctx.bump('impl_outcome', 'RecursionError')
         elif why:
             ctx.add_violation({'input': {'source': src}, 'what': why, 'found_by': stage, 'oracle': 'roundtrip',
-                               'shapes': shapes_of(src)})
+                               'shapes': shapes_of(src, why)})
         else:
             why2 = roundtrip_source(src) if len(src) < 20000 else None
             if why2 and why2 != 'recursion':
                 ctx.add_violation({'input': {'source': src}, 'what': why2, 'found_by': stage, 'oracle': 'roundtrip',
-                                   'shapes': shapes_of(src)})
+                                   'shapes': shapes_of(src, why2)})
     layout_check(ctx, keep, stage)
     if keep:
         ctx.sample({'stage': 'unparse:' + stage, 'id': keep[-1][0], 'source': keep[-1][1][:200], 'model_text': (sexp.dec_str(answers[-1][3:])[:200] if answers[-1].startswith('ok ') else answers[-1])})
@@ -548,7 +552,7 @@ def run(ctx):
             why = roundtrip_source(k['replay_source']) or roundtrip_tree(ast.parse(k['replay_source']))
             if why:
                 ctx.add_violation({'input': {'source': k['replay_source']}, 'what': why, 'found_by': 'known', 'oracle': 'roundtrip',
-                                   'shapes': shapes_of(k['replay_source'])})
+                                   'shapes': shapes_of(k['replay_source'], why)})
     if ctx.tier == 'thorough':
         other_interpreters(ctx)
 
@@ -574,7 +578,7 @@ def search(ctx):
             ctx.count()
             why = roundtrip_tree(r[1])
             if why and why != 'recursion':
-                ctx.add_violation({'input': {'source': r[0]}, 'what': why, 'found_by': 'search-random', 'oracle': 'roundtrip', 'shapes': shapes_of(r[0])})
+                ctx.add_violation({'input': {'source': r[0]}, 'what': why, 'found_by': 'search-random', 'oracle': 'roundtrip', 'shapes': shapes_of(r[0], why)})
 
 
 def oracles_only(ctx):
@@ -585,7 +589,7 @@ def oracles_only(ctx):
         ctx.count()
         why = roundtrip_tree(t)
         if why and why != 'recursion':
-            ctx.add_violation({'input': {'source': src}, 'what': why, 'found_by': 'exhaustive', 'oracle': 'roundtrip', 'shapes': shapes_of(src)})
+            ctx.add_violation({'input': {'source': src}, 'what': why, 'found_by': 'exhaustive', 'oracle': 'roundtrip', 'shapes': shapes_of(src, why)})
 
 
 def replay(ctx, data):
